@@ -37,7 +37,7 @@ COMPONENTS = {'real': ['bespokeasm (whole package, from /repo/src)', 'click', 'y
 
 PDIR = '/sim/p'
 OLD_IMAGE = 'OLD-IMAGE-SENTINEL-' * 40
-WRITE_KINDS = {'write_enospc_after', 'close_eio', 'stdout_epipe', 'open_erofs', 'open_enospc'}
+WRITE_KINDS = {'write_enospc_after', 'write_short_after', 'close_eio', 'stdout_epipe', 'open_erofs', 'open_enospc'}
 ZERO_FORMS = ['.fill 0, 0', '.zero 0', '.zerountil 0', '.fill 0, $ff', '.byte ""']
 
 
@@ -116,12 +116,20 @@ def evaluate(case, r):
         return v, obs
     if r['kind'] == 'crash':
         return v, obs
+    only_stdout = bool(fired) and all(f['kind'] == 'stdout_epipe' for f in fired)
     if failed(r):
         if not write_fault:
             if post != pre:
                 v.append('FC1-image-altered-on-failure')
             elif wopens:
                 v.append('FC1-image-opened-for-writing-on-failure')
+        elif only_stdout and post != pre:
+            # the diagnostic channel broke, the disk did not: the image is either still what it was or it is the
+            # complete new image (the failure came after it had been written) - never empty or partial
+            m = re.search(r'Writing (\d+) bytes', r.get('stdout', '') + case.get('_baseline_stdout', ''))
+            complete = case.get('_baseline_image')
+            if complete is None or post != complete:
+                v.append('FC1-image-left-partial-after-stdout-failure')
     else:
         if case.get('binary', True):
             if post is None:
@@ -166,6 +174,11 @@ def check_case(case):
                 'result': {'steps': 0, 'kind': rr['kind'], 'exit': rr['exit'], 'events': [], 'files': rr['files'],
                            'fired': [], 'gaps': []}}
     r = child.run_world(w)
+    if case.get('faults') and all(f.get('kind') == 'stdout_epipe' for f in case['faults']) and failed(r):
+        # what the complete image of this very case looks like (fault-free twin), for the stdout-failure clause
+        twin = dict(case, faults=[])
+        rt = child.run_world(build_world(twin))
+        case = dict(case, _baseline_image=rt['files'].get(image_path(case)) if not failed(rt) else None)
     v, obs = evaluate(case, r)
     obs['gaps'] = r.get('gaps', [])
     return {'violations': v, 'observed': obs, 'result': r}
@@ -242,6 +255,7 @@ def io_fault_variants(case, base_r, rnd):
                 size = len(base_r['files'].get(path, ''))
                 for kk in sorted({0, size // 2, max(size - 1, 0)}):
                     out.append([{'at': idx, 'kind': 'write_enospc_after', 'k': kk}])
+                    out.append([{'at': idx, 'kind': 'write_short_after', 'k': kk}])
                 out.append([{'at': idx, 'kind': 'close_eio'}])
             else:
                 for k in ('open_enoent', 'open_eacces', 'open_eisdir', 'open_eio', 'open_emfile'):
@@ -303,6 +317,16 @@ def semantic_variants(case, info, rnd):
     c['expect_fail'] = 'E1-unresolved-label-in-muted-line'
     c['mutation'] = {'kind': 'E1-muted'}
     out.append(c)
+    if case.get('includes'):
+        c = copy.deepcopy(case)
+        name = sorted(c['includes'])[0]
+        c['prog'].insert(0, '_mainonly:')
+        c['prog'].insert(1, '  .byte 1')
+        c['includes'][name] = list(c['includes'][name]) + ['  .2byte _mainonly']
+        c['expect_fail'] = 'E1-file-label-of-includer-used-in-included-file'
+        c['mutation'] = {'kind': 'E1-cross-file'}
+        c['inject'] = {'pos': 2, 'line': '  .byte 2'}
+        out.append(c)
     for _ in range(2):
         insert(rnd.choice(['  zzq 5', '  qqz', '  zzq a, 3', '  .bite 5', '  .fil 2, 1']), 'E2-unknown-instruction')
     # E1 by renaming an existing reference
